@@ -24,8 +24,18 @@ def sh(cmd, cwd=None, timeout=3600, env=None, inp=None):
     e = dict(os.environ)
     e['CARGO_NET_OFFLINE'] = 'true'
     if env: e.update(env)
-    p = subprocess.run(cmd, cwd=cwd, shell=isinstance(cmd, str), stdout=subprocess.PIPE, stderr=subprocess.STDOUT,
-                       timeout=timeout, env=e, input=inp, text=True, errors='replace')
+    # once an operation of the real crate was seen not to return (seqsuite.HUNG), every further run of a harness binary would hang as well
+    import seqsuite
+    exe = cmd if isinstance(cmd, str) else (cmd[0] if cmd else '')
+    if seqsuite.HUNG and isinstance(exe, str) and os.sep + os.path.join('.build', 'cargo') in exe and os.sep + 'debug' + os.sep in exe:
+        return 125, 'skipped: an operation of the implementation does not return (see the reported history)\n'
+    try:
+        p = subprocess.run(cmd, cwd=cwd, shell=isinstance(cmd, str), stdout=subprocess.PIPE, stderr=subprocess.STDOUT,
+                           timeout=timeout, env=e, input=inp, text=True, errors='replace')
+    except subprocess.TimeoutExpired as ex:
+        so = ex.stdout or ''
+        so = so.decode('utf-8', 'replace') if isinstance(so, bytes) else so
+        return 124, so + f'\nTIMEOUT: `{exe}` did not finish within {timeout} s\n'
     return p.returncode, p.stdout
 
 class Lock:
